@@ -69,7 +69,7 @@ theorem unmarshal_marshal (s : Schema) (vs : List Val) (h : WF s vs) :
     cases hf : s.fields with
     | nil => exact absurd hf h.fields_ne
     | cons _ _ => rfl
-  refine ⟨s.tags.take 1 ++ body, by simp [marshal, hfe, hbody], ?_⟩
+  refine ⟨s.tags.take 1 ++ body, by simp [marshal, Schema.typeTags, hfe, hbody], ?_⟩
   intro hlen hne
   have hrt : ∀ (hb : body.length < 4294967296), unmarshalFields s.fields body = .ok (vs, []) :=
     fun hb => fields_roundtrip vs s.fields body h.typed h.restLast h.vals hbody hb
@@ -81,14 +81,14 @@ theorem unmarshal_marshal (s : Schema) (vs : List Val) (h : WF s vs) :
     | cons d0 tl =>
       have := hrt hlen
       rw [hb] at this
-      simp [unmarshal, hfe, ht, this]
+      simp [unmarshal, Schema.typeTags, hfe, ht, this]
   | cons t ts =>
     have ht0 := h.tag t ts ht
     simp only [ht, List.take_succ_cons, List.take_zero, List.cons_append, List.nil_append,
       List.length_cons] at hlen ⊢
     have := hrt (by omega)
     have hpos : decide (t > 0) = true := by simpa using u8_pos_of_ne t ht0
-    simp [unmarshal, hfe, ht, this, hpos]
+    simp [unmarshal, Schema.typeTags, hfe, ht, this, hpos]
 
 /-- the round trip for every tagged struct (all message structs of messages.go are tagged) -/
 theorem unmarshal_marshal_tagged (s : Schema) (vs : List Val) (h : WF s vs) (ht : s.tags ≠ []) :
@@ -102,7 +102,7 @@ theorem unmarshal_marshal_tagged (s : Schema) (vs : List Val) (h : WF s vs) (ht 
       cases hf : s.fields with
       | nil => exact absurd hf h.fields_ne
       | cons _ _ => rfl
-    simp only [marshal, hfe, hts] at hb
+    simp only [marshal, Schema.typeTags, hfe, hts] at hb
     cases hm : marshalFields vs with
     | none => simp [hm] at hb
     | some body => simp [hm] at hb; rw [← hb]; simp
@@ -167,16 +167,10 @@ theorem unmarshalFields_no_panic (ks : List Kind) (d : Bytes) : unmarshalFields 
         simpa using this
       | ok q => simp
 
-/-- Unmarshal is total (a function into `Except`), and on every struct with at least one field it
-    never takes the panic outcome, for every byte string. -/
-theorem unmarshal_never_panics (s : Schema) (d : Bytes) (h : s.fields ≠ []) :
-    unmarshal s d ≠ .error .panic := by
-  have hfe : s.fields.isEmpty = false := by
-    cases hf : s.fields with
-    | nil => exact absurd hf h
-    | cons _ _ => rfl
+/-- Unmarshal is total (a function into `Except`) and never takes the panic outcome: every struct
+    (also the field-less one), every byte string. -/
+theorem unmarshal_never_panics (s : Schema) (d : Bytes) : unmarshal s d ≠ .error .panic := by
   unfold unmarshal
-  simp only [hfe, Bool.false_eq_true, if_false]
   cases d with
   | nil => simp
   | cons d0 tl =>
@@ -196,9 +190,10 @@ theorem unmarshal_never_panics (s : Schema) (d : Bytes) (h : s.fields ≠ []) :
         simp only
         split <;> simp
 
-/-- the field-less struct is the one place where the real `Unmarshal` / `Marshal` panic
-    (`typeTags` evaluates `Field(0)`); `decode` avoids it by answering type 52 directly -/
-example : unmarshal ⟨[], []⟩ [52] = .error .panic ∧ marshal ⟨[], []⟩ [] = none := by decide
+/-- the field-less struct (userAuthSuccessMsg): Marshal gives the empty string, Unmarshal never succeeds
+    (the empty input and leftover bytes are both parse errors) — no panic -/
+example : unmarshal ⟨[], []⟩ [52] = .error .parse ∧ unmarshal ⟨[], []⟩ [] = .error .parse ∧
+    marshal ⟨[], []⟩ [] = some [] := by decide
 
 /-- a first byte that is not one of the struct's type bytes (or is 0) is rejected as a wrong type -/
 theorem unmarshal_rejects_wrong_type (s : Schema) (d0 : UInt8) (tl : Bytes)
@@ -224,7 +219,7 @@ theorem unmarshal_rejects_wrong_type (s : Schema) (d0 : UInt8) (tl : Bytes)
       · subst hz; simp
       · have : ((0 : UInt8) == e) = false := beq_false_of_ne (fun hc => hz hc.symm)
         simp [this]
-  simp [unmarshal, hfe, hte, hany]
+  simp [unmarshal, Schema.typeTags, hfe, hte, hany]
 
 /-- bytes after a complete message are rejected (structs without a `rest` field — a `rest` field is
     by definition "everything that follows") -/
@@ -233,16 +228,33 @@ theorem unmarshal_rejects_trailing (s : Schema) (d e : Bytes) (vs : List Val)
     (hlen : (d ++ e).length < 4294967296) :
     unmarshal s (d ++ e) = .error .parse := by
   unfold unmarshal at hok ⊢
-  by_cases hfe : s.fields.isEmpty
-  · simp [hfe] at hok
-  · simp only [hfe, Bool.false_eq_true, if_false] at hok ⊢
-    cases d with
-    | nil => simp at hok
-    | cons d0 tl =>
-      simp only [List.cons_append] at hok ⊢
-      by_cases hte : s.tags.isEmpty
-      · simp only [hte, if_true] at hok ⊢
-        cases hf : unmarshalFields s.fields (d0 :: tl) with
+  have hee : e.isEmpty = false := by
+    cases e with
+    | nil => exact absurd rfl hne
+    | cons _ _ => rfl
+  cases d with
+  | nil => simp at hok
+  | cons d0 tl =>
+    simp only [List.cons_append] at hok ⊢
+    by_cases hte : s.typeTags.isEmpty
+    · simp only [hte, if_true] at hok ⊢
+      cases hf : unmarshalFields s.fields (d0 :: tl) with
+      | error er => simp [hf] at hok
+      | ok q =>
+        obtain ⟨vs', r⟩ := q
+        simp only [hf] at hok
+        split at hok
+        · rename_i hr
+          have hr' : r = [] := by simpa using hr
+          subst hr'
+          have := fields_append s.fields (d0 :: tl) e vs' [] hnr hf hlen
+          simp only [List.cons_append, List.nil_append] at this
+          simp [this, hee]
+        · simp at hok
+    · simp only [hte, Bool.false_eq_true, if_false] at hok ⊢
+      by_cases hany : s.typeTags.any (fun e => decide (e > 0) && d0 == e)
+      · simp only [hany, if_true] at hok ⊢
+        cases hf : unmarshalFields s.fields tl with
         | error er => simp [hf] at hok
         | ok q =>
           obtain ⟨vs', r⟩ := q
@@ -251,35 +263,11 @@ theorem unmarshal_rejects_trailing (s : Schema) (d e : Bytes) (vs : List Val)
           · rename_i hr
             have hr' : r = [] := by simpa using hr
             subst hr'
-            have := fields_append s.fields (d0 :: tl) e vs' [] hnr hf hlen
-            simp only [List.cons_append, List.nil_append] at this
-            have hee : e.isEmpty = false := by
-              cases e with
-              | nil => exact absurd rfl hne
-              | cons _ _ => rfl
+            have := fields_append s.fields tl e vs' [] hnr hf (by simp at hlen ⊢; omega)
+            simp only [List.nil_append] at this
             simp [this, hee]
           · simp at hok
-      · simp only [hte, Bool.false_eq_true, if_false] at hok ⊢
-        by_cases hany : s.tags.any (fun e => decide (e > 0) && d0 == e)
-        · simp only [hany, if_true] at hok ⊢
-          cases hf : unmarshalFields s.fields tl with
-          | error er => simp [hf] at hok
-          | ok q =>
-            obtain ⟨vs', r⟩ := q
-            simp only [hf] at hok
-            split at hok
-            · rename_i hr
-              have hr' : r = [] := by simpa using hr
-              subst hr'
-              have := fields_append s.fields tl e vs' [] hnr hf (by simp at hlen ⊢; omega)
-              simp only [List.nil_append] at this
-              have hee : e.isEmpty = false := by
-                cases e with
-                | nil => exact absurd rfl hne
-                | cons _ _ => rfl
-              simp [this, hee]
-            · simp at hok
-        · simp [hany] at hok
+      · simp [hany] at hok
 
 example : unmarshal ⟨[93], [.u32, .u32]⟩ [93, 0, 0, 0, 1, 0, 0, 0, 2] = .ok [.u32 1, .u32 2] ∧
     unmarshal ⟨[93], [.u32, .u32]⟩ [93, 0, 0, 0, 1, 0, 0, 0, 2, 0] = .error .parse ∧
@@ -287,17 +275,15 @@ example : unmarshal ⟨[93], [.u32, .u32]⟩ [93, 0, 0, 0, 1, 0, 0, 0, 2] = .ok 
 
 /-! ## the packet decoder -/
 
-theorem decodeType_schema (t : UInt8) (name : String) (h : decodeType t = some name) (h52 : t ≠ 52) :
-    ∃ s, schemaOf name = some s ∧ s.fields ≠ [] := by
+theorem decodeType_schema (t : UInt8) (name : String) (h : decodeType t = some name) :
+    ∃ s, schemaOf name = some s := by
   unfold decodeType at h
-  split at h <;> simp at h <;> subst h <;> first | exact absurd rfl h52 | simp [schemaOf]
+  split at h <;> simp at h <;> subst h <;> simp [schemaOf]
 
-/-- `decode` returns a message or an error for every non-empty packet; the empty packet is the one
-    input on which the real `decode` panics (`packet[0]`), which transport readers never deliver
-    (C26: every accepted payload has ≥ 1 byte). -/
-theorem decode_never_panics (p : Bytes) (h : p ≠ []) : decode p ≠ .error .panic := by
+/-- `decode` returns a message or an error for EVERY packet, the empty one included. -/
+theorem decode_never_panics (p : Bytes) : decode p ≠ .error .panic := by
   cases p with
-  | nil => exact absurd rfl h
+  | nil => simp [decode]
   | cons t tl =>
     simp only [decode]
     cases hd : decodeType t with
@@ -305,19 +291,30 @@ theorem decode_never_panics (p : Bytes) (h : p ≠ []) : decode p ≠ .error .pa
     | some name =>
       simp only
       by_cases h52 : t = 52
-      · simp [h52]
+      · simp only [h52, beq_self_eq_true, if_true]; split <;> simp
       · have hne : (t == 52) = false := beq_false_of_ne h52
         simp only [hne, Bool.false_eq_true, if_false]
-        obtain ⟨s, hs, hf⟩ := decodeType_schema t name hd h52
+        obtain ⟨s, hs⟩ := decodeType_schema t name hd
         simp only [hs]
         cases hu : unmarshal s (t :: tl) with
         | error e =>
-          have := unmarshal_never_panics s (t :: tl) hf
+          have := unmarshal_never_panics s (t :: tl)
           rw [hu] at this
           simpa using this
         | ok vs => simp
 
-example : decode [] = .error .panic := rfl
+/-- the empty packet is a short read -/
+theorem decode_empty : decode [] = .error .short := rfl
+
+/-- SSH_MSG_USERAUTH_SUCCESS carries no data: anything behind the type byte is rejected -/
+theorem decode_success_rejects_trailing (tl : Bytes) (h : tl ≠ []) : decode (52 :: tl) = .error .parse := by
+  have : tl.isEmpty = false := by
+    cases tl with
+    | nil => exact absurd rfl h
+    | cons _ _ => rfl
+  simp [decode, decodeType, this]
+
+example : decode [52] = .ok ("userAuthSuccessMsg", []) := by decide
 
 /-- unknown packet types are rejected -/
 theorem decode_rejects_unknown (t : UInt8) (tl : Bytes) (h : decodeType t = none) :
